@@ -101,7 +101,11 @@ def generate(R, tier, focus):
         else:
             ops.append({'op': 'OVERWRITE', 'first': R.randrange(len(cats)), 'second': R.randrange(len(cats)),
                         'fmt': R.choice(('ascii', 'json'))})
-    return {'engine': 'persistsim', 'kind': 'C14', 'region': region, 'mags': mags, 'cats': cats, 'ops': ops,
+    probe = None
+    if R.random() < 0.15:
+        probe = {'kind': R.choice(('enospc', 'torn_file', 'torn_file')), 'fmt': R.choice(('ascii', 'json')),
+                 'cat': R.randrange(len(cats)), 'cut': R.random()}
+    return {'engine': 'persistsim', 'kind': 'C14', 'region': region, 'mags': mags, 'cats': cats, 'ops': ops, 'probe': probe,
             'tz': R.choice(TZ_CHOICES),
             'clock_us': R.choice((R.randint(0, 4 * 10 ** 15), R.randint(10 ** 9, 2 * 10 ** 9) * 10 ** 6))}
 
@@ -312,6 +316,48 @@ def _execute14(scn, ctx, store, clock):
                     spec = dict(spec, catalog_id=None)      # no row carried the id
             ctx.log('gen', oi, gi, fmt, len(want), getattr(new, 'catalog_id', None))
         ctx.state((tuple(op['chain']), len(want) == 0, spec['catalog_id'] is not None))
+    if scn.get('probe') and not ctx.violations:
+        run_probe14(scn, ctx, store, make)
+
+
+def run_probe14(scn, ctx, store, make):
+    """Storage faults beyond C14 (the property admits no I/O error): outcomes are counted, never judged."""
+    import csep
+    import os
+    pr = scn['probe']
+    cat = make(pr['cat'])
+    want = model_rows(scn['cats'][pr['cat']]['events'])
+    path = store.path('probe.' + ('csv' if pr['fmt'] == 'ascii' else 'json'))
+    writer = cat.write_ascii if pr['fmt'] == 'ascii' else cat.write_json
+    if pr['kind'] == 'enospc':
+        ctx.count('fire:probe_enospc_on_open')
+        store.fail_at = store.opens + 1
+        r = call(writer, path)
+        store.fail_at = None
+        ctx.count('probe:enospc:' + ('propagates_OSError' if r[0] == 'exc' and r[1] == 'OSError' else
+                                     'silent' if r[0] == 'ok' else 'other:' + r[1]))
+        ctx.count('probe:enospc:file_left_behind' if os.path.exists(path) else 'probe:enospc:no_file')
+        return
+    ctx.count('fire:probe_torn_write')
+    r = call(writer, path)
+    if r[0] != 'ok':
+        return
+    size = os.path.getsize(path)
+    cut = int(size * pr['cut'])
+    with open(path, 'r+b') as f:
+        f.truncate(cut)
+    r = call(csep.load_catalog, path)
+    if r[0] != 'ok':
+        ctx.count('probe:torn_%s:load_raises:%s' % (pr['fmt'], r[1]))
+        return
+    got = rows_of(r[1])
+    if hexf([list(x) for x in got]) == hexf([list(x) for x in want[:len(got)]]):
+        ctx.count('probe:torn_%s:loads_a_clean_prefix' % pr['fmt'] if len(got) < len(want) else
+                  'probe:torn_%s:loads_everything' % pr['fmt'])
+    elif len(got) and hexf([list(x) for x in got[:-1]]) == hexf([list(x) for x in want[:len(got) - 1]]):
+        ctx.count('probe:torn_%s:loads_prefix_with_damaged_last_event' % pr['fmt'])
+    else:
+        ctx.count('probe:torn_%s:loads_other' % pr['fmt'])
 
 
 def _same_region(ctx, a, b, region_lit, op_seed=0):
